@@ -136,11 +136,17 @@ PROPS = {
         nontrivial=lambda p: bool(prog_kinds(p) & {"orig", "sms"}),
     ),
     "C17": dict(
-        gens=[tlc("c01"), rand("stream_any", 600, "quick"), rand("stream_any", 30000, "thorough")],
+        gens=[tlc("c01"), rand("stream_any", 400, "quick"), rand("wild", 600, "quick"), rand("decoder_junk", 300, "quick"),
+              rand("parser_bytes", 300, "quick"),
+              rand("stream_any", 20000, "thorough"), rand("wild", 40000, "thorough"), rand("decoder_junk", 20000, "thorough"),
+              rand("parser_bytes", 20000, "thorough")],
         tv_props=["C17"],
         must_fire=["C17.no_panic"],
-        rule="every recorded call must return normally; non-trivial = composite tree",
-        nontrivial=lambda p: bool(prog_kinds(p) & {"concat", "replace", "cached", "sms"}),
+        also_release=True,
+        rule="every recorded call must return normally (debug build with overflow checks; the same programs are re-run in a release "
+             "build): trees with wild maps and combined maps, arbitrary decoder strings with long continuation runs, arbitrary / "
+             "mutated / deeply nested bytes for the JSON entry points; non-trivial = composite tree or a parser/decoder input",
+        nontrivial=lambda p: bool(prog_kinds(p) & {"concat", "replace", "cached", "sms"}) or any(s["op"] in ("decode", "parse") for s in p.get("steps", [])),
     ),
 }
 
